@@ -376,6 +376,77 @@ def absolute_label_cause(lines, n, ru):
     return 'other'
 
 
+PSEUDO_BASE = {   # pseudo transfer -> (base mnemonic, operand order) so that a literal distance can be written
+    'j': lambda o: 'jal x0, {}'.format(o[-1]), 'jal': lambda o: 'jal x1, {}'.format(o[-1]) if len(o) == 1 else 'jal {}, {}'.format(o[0], o[1]),
+    'beqz': lambda o: 'beq {}, x0, {}'.format(o[0], o[1]), 'bnez': lambda o: 'bne {}, x0, {}'.format(o[0], o[1]),
+    'bgez': lambda o: 'bge {}, x0, {}'.format(o[0], o[1]), 'bltz': lambda o: 'blt {}, x0, {}'.format(o[0], o[1]),
+    'blez': lambda o: 'bge x0, {}, {}'.format(o[0], o[1]), 'bgtz': lambda o: 'blt x0, {}, {}'.format(o[0], o[1]),
+    'bgt': lambda o: 'blt {}, {}, {}'.format(o[1], o[0], o[2]), 'ble': lambda o: 'bge {}, {}, {}'.format(o[1], o[0], o[2]),
+    'bgtu': lambda o: 'bltu {}, {}, {}'.format(o[1], o[0], o[2]), 'bleu': lambda o: 'bgeu {}, {}, {}'.format(o[1], o[0], o[2]),
+}
+
+
+def offset_before(chunks, n):
+    return sum(len(b) for (_, ln, b) in chunks if ln < n)
+
+
+def absolute_position_cause(lines, n, ru):
+    """Known finding K3: the line refused with -c takes the distance to a CONSTANT -- an absolute position -- as the target of a
+    branch / jump or through %offset.  What compresses in front of the line moves the line, the target stays where it is, the
+    distance grows.  Assigned only if the position of the line is the ONLY reason: with the distance of the uncompressed layout
+    written into the line as a number the same program assembles with -c, and with the distance of the compressed layout written in
+    it is refused at that line without any compression."""
+    consts = dict(ru.get('constants', []))
+    code = lines[n - 1].split('#')[0]
+    toks = [t for t in code.replace(',', ' ').replace('(', ' ( ').replace(')', ' ) ').split() if t]
+    if not toks:
+        return 'other'
+    head = toks[0].lower()
+
+    def variant_line(dist):
+        m = re.search(r'%offset\s*(\(\s*(\w+)\s*\)|\s+(\w+))', code, re.I)
+        if m and (m.group(2) or m.group(3)) in consts:
+            return code[:m.start()] + str(dist) + code[m.end():]
+        if head in TRANSFER_HEADS and toks[-1] in consts and len(toks) >= 2:
+            ops = toks[1:-1] + [str(dist)]
+            if head in PSEUDO_BASE and not (head == 'jal' and len(ops) == 2):
+                return PSEUDO_BASE[head](ops)
+            if head in ('call', 'tail'):
+                return None
+            return head + ' ' + ', '.join(ops)
+        return None
+
+    def ref_value():
+        m = re.search(r'%offset\s*(\(\s*(\w+)\s*\)|\s+(\w+))', code, re.I)
+        if m and (m.group(2) or m.group(3)) in consts:
+            return consts[m.group(2) or m.group(3)]
+        if head in TRANSFER_HEADS and toks[-1] in consts:
+            return consts[toks[-1]]
+        return None
+    K = ref_value()
+    if K is None or ru.get('status') != 'OK':
+        return 'other'
+    pU = offset_before(ru['chunks'], n)
+    v1 = variant_line(K - pU)
+    if v1 is None:
+        return 'other'
+    asm = harness.real_asm()
+    variant = list(lines)
+    variant[n - 1] = v1
+    rv = pipeline.run_real(asm, '\n'.join(variant), True)
+    if rv.get('status') != 'OK':
+        return 'other'
+    pC = offset_before(rv['chunks'], n)
+    if abs(K - pC) <= abs(K - pU):
+        return 'other'
+    variant2 = list(lines)
+    variant2[n - 1] = variant_line(K - pC)      # the distance of the compressed layout, as a number
+    r2 = pipeline.run_real(asm, '\n'.join(variant2), False)
+    if r2.get('status') == 'ASM' and r2.get('line') == n:
+        return 'absolute-position-target-moved'
+    return 'other'
+
+
 def compress_failure_cause(source, rc, ru):
     """Names the one cause that is a known finding (K1): the line refused with -c is a pc-relative transfer to a LABEL and an
     `align` stands between the transfer and the label -- the align absorbs what compression saves on one side, so the distance
@@ -387,6 +458,9 @@ def compress_failure_cause(source, rc, ru):
     if not (1 <= n <= len(lines)):
         return 'other'
     toks = [t for t in lines[n - 1].split('#')[0].replace(',', ' ').split() if t]
+    k3 = absolute_position_cause(lines, n, ru)
+    if k3 != 'other':
+        return k3
     if toks and toks[0].lower() not in TRANSFER_HEADS:
         return absolute_label_cause(lines, n, ru)
     if not toks:
